@@ -13,6 +13,8 @@ import (
 const (
 	diffChannels string = "different number of channels"
 	diffCapacity string = "different buffer capacity"
+
+	sliceOutOfRange string = "slice bounds out of range"
 )
 
 type (
